@@ -257,6 +257,7 @@ def c20(ctx):
     purity.r_verb(ctx, floor_funcs=10)
     purity.r_monitor(ctx)
     exc.r_typed_dispatch(ctx, ctx.reachable(), floor=5)
+    graph2.r_useless_kept(ctx)  # the trimmed map shares no row object with its argument (arc removal edits rows in place)
 
 
 PROPERTIES = {
